@@ -61,6 +61,15 @@ def synthetic_events(n, seed):
             elif rng.random() < 0.5:
                 attrs['position'] = None
             aa.add_node(key, **attrs)
+        if rng.random() < 0.5 and all(d.get('position', 0) is not None for _, d in aa.nodes(data=True)):
+            # (an atom whose position is None, rather than absent, cannot be written at all)
+            # history: the atomistic structure was written out first, as -write-repair / -write-canon do (atoms without
+            # coordinates are written as NaN); writing must leave the structure as it was
+            from vermouth.system import System
+            from vermouth.pdb.pdb import write_pdb_string
+            written = System()
+            written.add_molecule(aa)
+            write_pdb_string(written, conect=False, nan_missing_pos=True)
         rot = rng.choice(ROTS)
         shift = [rng.choice([0, 100, -250]) for _ in range(3)]
         cg = Molecule(force_field=ff)
